@@ -50,6 +50,14 @@ func NewAnnotationLinkValidator(recv *metadata.ReceiverMeta) (AnnotationLinkVali
 	}, nil
 }
 
+// WithControllerRoute returns a validator that also knows the URL parameters of the controller's own @Route:
+// the route a method serves is the controller's prefix followed by the method's route, and a parameter of
+// the prefix is bound by the method's @Path annotations like any other
+func (v AnnotationLinkValidator) WithControllerRoute(controllerRoute string) AnnotationLinkValidator {
+	v.urlParams = append(extractUrlParams(controllerRoute), v.urlParams...)
+	return v
+}
+
 // Validate runs the nine checks and returns resolved diagnostics.
 func (v AnnotationLinkValidator) Validate() []diagnostics.ResolvedDiagnostic {
 	diags := []diagnostics.ResolvedDiagnostic{}
